@@ -1377,8 +1377,8 @@ public:
   {
     if (normalizeWeights)
     {
-      std::vector<InputType> wn = w / sum(w);
-      return scalar<InputType, OutputType>(v1, wn);
+      // Normalize the result rather than the weights: w / sum(w) cannot be held in an integral InputType.
+      return scalar<InputType, OutputType>(v1, w) / static_cast<OutputType>(sum(w));
     }
     else
     {
